@@ -314,6 +314,18 @@ fn prompt_commands() -> Vec<String> {
             v.push(format!("print mem :{}", fmt(n, r)));
         }
     }
+    // numbers of every digit count, written against the separator with and without blanks (a token rule that
+    // swallows "dddd:dddd" or "dddd->..." shows only for particular digit counts)
+    for a in [7u32, 512, 4096, 65536, 1000000] {
+        for n in [3u32, 100, 1024] {
+            v.push(format!("print mem {}:{}", a, n));
+            v.push(format!("print mem {} :{}", a, n));
+            v.push(format!("print mem {}->{}", a, a + n));
+            v.push(format!("print mem {}-> {}", a, a + n));
+            v.push(format!("print mem 0x{:x}:0x{:x}", a, n));
+            v.push(format!("print mem {:04}:{:04}", a, n));
+        }
+    }
     // commands longer than 256 and 4096 bytes (padding blanks, zero-padded numbers)
     for pad in [250usize, 300, 5000] {
         v.push(format!("print mem 0 ->{}15", " ".repeat(pad)));
@@ -562,7 +574,7 @@ pub fn run(tier: &Tier) -> i32 {
     }
     let mut cov = Coverage::default();
     cov.exhaustive = true;
-    cov.rule = "(thorough adds: every start in the first 41 and last 32 bytes of memory x every length up to 40 in both absolute forms, and every DS-relative length 0..47 from three segments.) every run is the real binary; stdout is parsed back field by field (12 registers as four upper-case hex digits, nine flags as 0/1, memory as two-digit upper-case hex cells in rows of 16) and compared with the reference interpreter's machine state at that point. Register group: 11 rotations of 11 distinct values over the 11 settable registers (each register holds each value once). Flag group: all 512 combinations of the nine flags loaded through POPF (TF combinations are single-stepped with 'n'). Memory group (every second run under DS=0x1000: absolute ranges must not depend on DS): 10 starts x 10 lengths (0,1,2,15,16,17,31,32,33,64) for 'a -> b' and 'a : n' incl. ranges ending at 0xFFFFF, backwards ranges, DS-relative ranges for DS over the segment lattice incl. ranges leaving the space and ranges longer than 64 KiB, each in 5 spellings (decimal, 0x, 0X + upper-case keywords, 0b, upper-case). Prompt group: every command of a 100+ command alphabet (4 radices, spacing and case variants, commands padded beyond 256 and 4096 bytes, reported ranges, constants beyond 2^20 and beyond 2^64) typed alone / repeated / all in one script at an INT 3 prompt, at each single-step prompt of -i mode, and under the trap flag; after every prompt the program prints registers, flags and memory again, so any change caused by printing is visible. Prompt constants exhaustively: the data definitions fill the first 64 KiB with an address-identifying pattern, stops at INT 3, and EVERY address 0..65535 is typed in 4 (thorough 6) spellings (decimal, 0x, 0x with leading zeros, 0b, 0X, zero-padded decimal) in both absolute forms".into();
+    cov.rule = "(thorough adds: every start in the first 41 and last 32 bytes of memory x every length up to 40 in both absolute forms, and every DS-relative length 0..47 from three segments.) every run is the real binary; stdout is parsed back field by field (12 registers as four upper-case hex digits, nine flags as 0/1, memory as two-digit upper-case hex cells in rows of 16) and compared with the reference interpreter's machine state at that point. Register group: 11 rotations of 11 distinct values over the 11 settable registers (each register holds each value once). Flag group: all 512 combinations of the nine flags loaded through POPF (TF combinations are single-stepped with 'n'). Memory group (every second run under DS=0x1000: absolute ranges must not depend on DS): 10 starts x 10 lengths (0,1,2,15,16,17,31,32,33,64) for 'a -> b' and 'a : n' incl. ranges ending at 0xFFFFF, backwards ranges, DS-relative ranges for DS over the segment lattice incl. ranges leaving the space and ranges longer than 64 KiB, each in 5 spellings (decimal, 0x, 0X + upper-case keywords, 0b, upper-case). Prompt group: every command of a 200+ command alphabet (4 radices, spacing and case variants, numbers of 1 to 7 digits written against ':' and '->' without blanks, commands padded beyond 256 and 4096 bytes, reported ranges, constants beyond 2^20 and beyond 2^64) typed alone / repeated / all in one script at an INT 3 prompt, at each single-step prompt of -i mode, and under the trap flag; after every prompt the program prints registers, flags and memory again, so any change caused by printing is visible. Prompt constants exhaustively: the data definitions fill the first 64 KiB with an address-identifying pattern, stops at INT 3, and EVERY address 0..65535 is typed in 4 (thorough 6) spellings (decimal, 0x, 0x with leading zeros, 0b, 0X, zero-padded decimal) in both absolute forms".into();
     cov.bounds = json!({"register_flag_runs": n_regflag, "memory_runs": n_mem, "prompt_runs": n_prompt, "program_prints_checked": prints.load(Ordering::Relaxed), "prompt_prints_checked": prompt_prints.load(Ordering::Relaxed), "range_reports_checked": reports.load(Ordering::Relaxed), "memory_cells_checked": cells.load(Ordering::Relaxed), "tier": tier.name()});
     cov.assumptions = common_assumptions();
     cov.assumptions.push("messages are parsed tolerantly: `XX : 0xHHHH`, `XF : [01]`, rows of two-digit hex cells; a range report is any non-empty line without cells".into());
